@@ -375,12 +375,15 @@ def run(ctx):
             exact = sum(Fraction(c) * Fraction(x) ** i for i, c in enumerate(cs))
             counts["polynomial"] += 1
             distinct.add(("poly", k, x))
-            if Fraction(got) != exact:
+            # binary64 evaluation: exact whenever every intermediate fits 53 bits (most of these dyadic cases), otherwise within the
+            # usual bound for a polynomial evaluation, a few ulps of the sum of the absolute terms
+            bound = Fraction(1, 10 ** 13) * sum(abs(Fraction(c)) * abs(Fraction(x)) ** i for i, c in enumerate(cs))
+            if abs(Fraction(got) - exact) > bound:
                 violations.append(Violation("polynomial scaling: got %r, exact sum c_i x^i = %s" % (got, float(exact)), dict(kind="polynomial", coeffs=cs, x=x, got=got)))
             if ev is not None:
                 m = unfr(ev.ask("horner %s %s" % (",".join(fr(c) for c in cs) or "-", fr(x))))
                 counts["model"] += 1
-                if m != Fraction(got):
+                if abs(m - Fraction(got)) > bound:
                     disagreements.append(dict(what="horner model=%s real=%r" % (m, got)))
             m_ = rnd.randint(2, 6)
             xs = sorted(set(dy(rnd, -10, 10, 3) for _ in range(m_)))
